@@ -78,7 +78,7 @@ def canonTree (t : Tree) : Tree :=
   sortBy (fun a b => walkLt a.1 b.1) dedup
 
 inductive Act
-  | retr
+  | retr (stale : Tree)
   | store (conc : Bool) (main : Option Nat) (sub : Nat) (src : Tree)
   | damage (keep : Nat)     -- compressed only: the entry tarball is cut to keep% of its bytes
 
@@ -93,8 +93,9 @@ def parseCrash (c : String) : Option (Option Nat × Nat) :=
   | _ => none
 
 def parseAct (a : String) : Option Act :=
-  if a = "R" then some .retr else
+  if a = "R" then some (.retr []) else
   match a.splitOn "/" with
+  | ["R", tr] => (parseTree tr).map .retr
   | ["D", k] => (k.toNat?).bind fun k => if k ≤ 75 then some (.damage k) else none
   | [t, c, tr] =>
     if t = "S" ∨ t = "X" then do
@@ -157,7 +158,7 @@ def runU (cands outs : List Path) (acts : List Act) : String :=
   let (fs, pieces) := acts.foldl (fun (st : FS × List String) a =>
     let (fs, pieces) := st
     match a with
-    | .retr => (fs, pieces ++ [showRes (retrieveU fs cands outs)])
+    | .retr _ => (fs, pieces ++ [showRes (retrieveU fs cands outs)])   -- plain: every output is removed, then linked back
     | .damage _ => (fs, pieces)
     | .store false m k src =>
       let (fs', tr) := storeU fs cands outs m k src
@@ -188,11 +189,14 @@ def showSliceC (fs : CFS) : String :=
     | some t => if t.closed then "z/" ++ showTree t.es else "z!"
   "F=" ++ one .final ++ " T=" ++ one .tmp
 
-def runC (outs : List Path) (acts : List Act) : String :=
+def runC (cands outs : List Path) (acts : List Act) : String :=
   let (fs, pieces) := acts.foldl (fun (st : CFS × List String) a =>
     let (fs, pieces) := st
     match a with
-    | .retr => (fs, pieces ++ [showRes (retrieveC Generated.C12.damagedIsMiss fs outs)])
+    | .retr stale =>
+      let d0 : Dest := fun p => stale.get p
+      (fs, pieces ++ [showRes (retrieveCInto (Generated.C12.retrievePreparesEveryEntry && !Generated.C12.retrieveReadyReturnsBeforeUnlink) Generated.C12.retrieveOpenTruncates
+        Generated.C12.damagedIsMiss fs d0 cands outs)])
     | .damage _ =>
       -- the cut reaches at least a quarter into the compressed stream: entry data or the end marker is gone
       -- (cuts confined to the last few bytes are outside the protocol: see harness/cmd/c12/main.go)
@@ -220,7 +224,7 @@ def step (line : String) : String :=
         | _ => []
       let all := (treePaths ++ outs).flatMap prefixesOf
       let cands := sortBy walkLt (all.foldl (fun acc p => if acc.contains p then acc else acc ++ [p]) [])
-      if mode = "u" then runU cands outs acts else runC outs acts
+      if mode = "u" then runU cands outs acts else runC cands outs acts
     | _, _ => "bad-op"
   | _ => "bad-op"
 
